@@ -337,9 +337,12 @@ def check_average(ctx):
     L = sym.sym('L')
     x, y = arr_param('x', length=L), arr_param('y', length=L)
     n = S('interval')
-    inl = lambda f: f.qualname.endswith('IntervalArray.__init__')
+    from .common import inline_except
+    inl = inline_except('traffic_weaver.interval.IntervalArray.to_2d_array')      # the specification is phrased in the interval view; helpers around it are transparent
     ev = Evaluator(ctx.prog, inline=inl, opaque_kind=REPO_RESULT_KIND)
     res, st = ev.run_function(fi, args={'x': x, 'y': y, 'interval': n})
+    if ev.issues:
+        raise AnalysisError(f"C17.6: average not canonicalisable: {ev.issues[:3]}")
     views = [e for e in ev.events if e.kind == 'call' and e.data['callee'].name == 'to_2d_array']
     ok = isinstance(res, Tup) and len(res.items) == 2 and len(views) >= 1
     detail = show(res, 300)
@@ -366,7 +369,7 @@ def check_average(ctx):
                 okx = (isinstance(lo, Const) and lo.v is None or isinstance(lo, Num) and lo.is_const() and lo.const() == 0) and isinstance(hi, Const) \
                     and hi.v is None and veq(step, n)
         oky = len(vy) == 1 and isinstance(ry, Term) and ry.head == 'lib:numpy.nanmean' and veq(targ(ry, 'a', 0), vy[0]) and isinstance(targ(ry, 'axis', 1), Num) \
-            and targ(ry, 'axis', 1).is_const() and targ(ry, 'axis', 1).const() == 1
+            and targ(ry, 'axis', 1).is_const() and targ(ry, 'axis', 1).const() in (1, -1)       # the view is two-dimensional (C17.4): its last axis is axis 1
         ok = okx and oky
         detail = f"x: {show(rx, 160)}\ny: {show(ry, 160)}"
     ctx.check(ok, 'C17.6', 'average: row means (NaN-ignoring, axis=1) of the interval view of y; first column of the interval view of x', detail, fi.loc(), fi.qualname, 'average')
